@@ -238,9 +238,18 @@ func leakClass(w *c17World, diff string) string {
 	return strings.Join(ks, "+")
 }
 
-func (w *c17World) runHistory(r *vlib.Run, id, kind string, hist []string) {
+// collectAll is a reporter that accepts every error (the import then fails with the invalid-source sentinel).
+type collectAll struct{}
+
+func (collectAll) Error(reporter.ErrorWithPos) error { return nil }
+func (collectAll) Warning(reporter.ErrorWithPos)     {}
+
+func (w *c17World) runHistory(r *vlib.Run, id, kind string, hist []string, tolerant bool) {
 	T, R := &linker.Symbols{}, &linker.Symbols{}
 	imp := func(s *linker.Symbols, name string) error {
+		if tolerant {
+			return s.Import(w.get(kind, name), reporter.NewHandler(collectAll{}))
+		}
 		return s.Import(w.get(kind, name), reporter.NewHandler(nil))
 	}
 	if err := imp(T, "base.proto"); err != nil {
@@ -249,7 +258,7 @@ func (w *c17World) runHistory(r *vlib.Run, id, kind string, hist []string) {
 	}
 	_ = imp(R, "base.proto")
 	failures := 0
-	wit := map[string]any{"descriptor_kind": kind, "history": hist}
+	wit := map[string]any{"descriptor_kind": kind, "history": hist, "reporter": map[bool]string{false: "default (fails on the first error)", true: "accepts every error"}[tolerant]}
 	for step, name := range hist {
 		before := w.view(T)
 		errT := imp(T, name)
@@ -334,7 +343,7 @@ func TestC17(t *testing.T) {
 	defer r.Finish()
 	r.Extra("rule", "universe of 12 small files with planted collisions (message/enum/enum-value/service names, name vs package component, extension numbers where the first or the second extension of the file collides, "+
 		"a colliding element that comes after the file's extensions); every history of imports of length <=L over the universe (L=3 quick, 4 thorough; exhaustive) x two descriptor kinds (linker results with source, "+
-		"descriptors built by protodesc); after every failed Import: Lookup/LookupExtension over the whole universe unchanged, the same Import fails again, and a replica table built by the same history without the failed "+
+		"descriptors built by protodesc) x two reporters (the default, which fails on the first error, and one that accepts every error); after every failed Import: Lookup/LookupExtension over the whole universe unchanged, the same Import fails again, and a replica table built by the same history without the failed "+
 		"attempts behaves identically on every follow-up import. non-trivial = history containing >=1 failing import; distinct = (kind, history)")
 	r.Extra("assumptions", []string{"Symbols.Import is deterministic and sequential here, so two tables built by the same successful prefix are equivalent",
 		"the dependency (base.proto) is already in the table, so its import is not part of a failed attempt"})
@@ -376,7 +385,8 @@ func TestC17(t *testing.T) {
 				key = id
 			}
 			r.Eval(key)
-			w.runHistory(r, id, kind, hist)
+			w.runHistory(r, id, kind, hist, false)
+			w.runHistory(r, id+"/collect-all", kind, hist, true)
 			if code == 17 {
 				r.Sample("history", map[string]any{"kind": kind, "imports": hist})
 			}
